@@ -402,6 +402,25 @@ func parseOp(op string) (p parsed, err error) {
 	if dir == "lrt" || dir == "lhash" {
 		return parseLargeOp(ws)
 	}
+	if dir == "prt" && len(ws) == 4 {
+		// <txt codec> prt <hex of string> <cuts|->: to_F, cut the bytes at `cuts` into an array binary, from_F
+		c, ok := codecs[name]
+		if !ok || !decTakesBinary[name] {
+			return p, fmt.Errorf("bad prt codec in %q", op)
+		}
+		cuts := []any{}
+		if ws[3] != "-" {
+			for _, x := range strings.Split(ws[3], ",") {
+				n, err := parseInt(x)
+				if err != nil {
+					return p, err
+				}
+				cuts = append(cuts, n)
+			}
+		}
+		expr := `. as [$s,$cuts] | try [($s | ` + c.to + `) as $t | [range(($cuts|length)+1) as $i | $t[(if $i == 0 then 0 else $cuts[$i-1] end):(if $i == ($cuts|length) then ($t|length) else $cuts[$i] end)]] | ` + c.from + `] catch []`
+		return parsed{expr: expr, input: []any{string(hlib.UnHex(ws[2])), cuts}, render: decObs}, nil
+	}
 	switch {
 	case name == "radix" && dir == "rt" && len(ws) == 4:
 		b, err1 := parseInt(ws[2])
